@@ -562,6 +562,53 @@ def r11_trailer_errors_count(ctx):
                  % (lvl, cname, 'SE' if lvl == 'st' else 'GE', 'set' if lvl == 'st' else 'group'))
 
 
+def r13_segment_items(ctx):
+    """every segment error with a standard code gets its AK3/IK3, and the element errors of a segment are itemised under
+    an AK3/IK3 of that segment: visit_seg of both visitors, decided by constant propagation for every combination of
+    segment-level codes (standard, non-standard HL1/LX, the SEG1 marker, none) with and without element errors, writes
+    one AK3/IK3 per standard code reported, each once, and at least one whenever the segment has element errors - an
+    AK4/IK4 without its AK3/IK3 is read as belonging to the previous segment."""
+    from ..absint import traces, NotClosedTest
+    import itertools as _it
+    for mod, cname, des in (('error_997', 'error_997_visitor', 'AK304'), ('error_999', 'error_999_visitor', 'IK304')):
+        fn = ctx.func(mod, cname + '.visit_seg')
+        g = ctx.cfg(fn)
+        std = ('1', '2', '3', '4', '5', '6', '7', '8')
+        bad = []
+        runs = 0
+        for codes in [()] + [c_ for k in (1, 2) for c_ in _it.combinations(('3', '5', '8', 'HL1', 'LX', 'SEG1'), k)]:
+            for kids in (0, 2):
+                seg = A.Model('err_seg', seg_id='NM1', seg_count=5, ls_id=None, name='x', errors=tuple((c_, 'msg', None) for c_ in codes),
+                              child_err_count=lambda kids=kids: kids, elements=())
+
+                def key(c):
+                    r, m = A.call_target(c)
+                    if m == 'set' and c.args and A.const(c.args[0]) == des:
+                        return 'item'
+                    return None
+                try:
+                    res = traces(g, {'err_seg': seg}, key)
+                except NotClosedTest as e:
+                    raise AnalysisError('%s.visit_seg cannot be decided for the codes %s: %s' % (cname, list(codes), e))
+                runs += 1
+                for tr, _e in res:
+                    written = [a_[1][1] if len(a_[1]) > 1 else '?' for a_ in tr if a_[0] == 'item']
+                    need = sorted({c_ for c_ in codes if c_ in std} | ({'8'} if 'SEG1' in codes else set()))
+                    prob = None
+                    if sorted(set(written)) != sorted(written):
+                        prob = 'writes a code twice'
+                    elif [c_ for c_ in need if c_ not in written]:
+                        prob = 'writes no %s for the code %s' % (des[:3], [c_ for c_ in need if c_ not in written][0])
+                    elif kids and not written:
+                        prob = 'writes no %s although the segment has element errors: their %s4 lines are read as part of the previous segment' % (des[:3], des[:2])
+                    elif [c_ for c_ in written if c_ not in need and c_ != '8']:
+                        prob = 'writes the code %s that was not reported' % [c_ for c_ in written if c_ not in need][0]
+                    if prob and len(bad) < 3:
+                        bad.append('segment codes %s, %d element error(s): %s (written: %s)' % (list(codes), kids, prob, written))
+        yield Ob('%s:%s.visit_seg one %s per standard segment code, and one whenever there are element errors' % (mod, cname, des[:3]), not bad, ctx.floc(fn),
+                 '' if not bad else bad[0], note='%d combinations' % runs)
+
+
 def r12_addressed_to_sender(ctx):
     """the acknowledgement goes back to the sender: in the ISA and GS that visit_root_pre builds, the sender fields carry
     the received receiver and the receiver fields the received sender (ISA05/06 <-> ISA07/08, GS02 <-> GS03).  The
@@ -615,6 +662,7 @@ RULES = [
     Rule('C05.R8', 'shared with C04.R1: the received-set count the acknowledgement reports is the reader\'s, counted unconditionally', r8_shared_reader_counts, floor=37),
     Rule('C05.R9', 'reader errors are handed to the error tree before the loop they concern is closed', r9_reader_errors_before_close, floor=3),
     Rule('C05.R10', 'AK401/IK401 carry element, component and repetition position each in its own place', r10_element_position, floor=4),
+    Rule('C05.R13', 'visit_seg: an AK3/IK3 for every standard segment code and for every segment with element errors (constant propagation)', r13_segment_items, floor=2),
     Rule('C05.R12', 'ISA05-08 / GS02-03 of the acknowledgement are the received receiver and sender, swapped', r12_addressed_to_sender, floor=9),
     Rule('C05.R11', 'errors on SE/GE themselves are reflected in the set/group code (validated before close, or code evaluated when read)', r11_trailer_errors_count, floor=2),
 ]
